@@ -110,6 +110,8 @@ def run(ctx):
                               "spellings %s produce different output than %s" % (outs[ks[1]][:3], outs[ks[0]][:3]))
                 nv += 1
     ctx.cov["disagreements_checked"] = len(runs)
+    from vlib import regress
+    regress.wide_spellings(ctx)          # the shape-agnostic search step (DESIGN.md 12.8)
     ctx.cov["rule"] = ("3 special schemas (all re-spellable keywords at once; numeric / boolean / null-looking property names; enum and default strings that look like YAML "
                        "scalars) + random in-guard schemas; each in 2^5 JSON re-spellings (id/$id, definitions/$defs with matching $ref prefix, type string/list, true/{}, "
                        "dependencies/dependentSchemas; every third one in the quick tier) and as YAML in block and flow style with .yaml/.yml extension in current and legacy "
